@@ -78,6 +78,7 @@ def calls_in(body, blocks):
 
 def run(ctx, rep):
     prog = ctx.prog
+    wiring_rule(ctx, rep, "C02")
     for r, tx in (("C02.a", "typed blob identity in the used set"), ("C02.b", "used-blob walk is total and aborts on error"),
                   ("C02.c", "removal decisions require 'no used blob'"), ("C02.d", "plan/executor agreement per decision"), ("C02.e", "index removal before pack removal")):
         rep.rule(r, tx)
